@@ -153,6 +153,17 @@ def ratDivZero (a : Rat) : String := if a > 0 then "+inf" else if a < 0 then "-i
 /-- `ConvertPoint` / `ConvertSize` / `ConvertRect` between `int` and `float64`: Go's conversion truncates towards zero -/
 def truncRat (q : Rat) : Int := Int.tdiv q.num q.den
 
+/-- IEEE double on the wire: 16 hex digits; both zeros print as 0, any NaN as `nan` -/
+def parseF64? (s : String) : Option Float :=
+  if s.length ≠ 16 then none else (hexToNat? s).map (fun n => Float.ofBits n.toUInt64)
+
+def f64Str (x : Float) : String :=
+  if x.isNaN then "nan"
+  else if x == 0 then "0000000000000000"
+  else
+    let h := natToHex x.toBits.toNat
+    String.ofList (List.replicate (16 - h.length) '0') ++ h
+
 def step (_ : Unit) (line : String) : Unit × String :=
   let out :=
     match words line with
@@ -164,6 +175,10 @@ def step (_ : Unit) (line : String) : Unit × String :=
       match ws.mapM String.toInt? with
       | some v => rectOp (fun (a : Int64) => a / 2) (fun (i : Int64) => toString i.toInt) op (v.map Int64.ofInt)
       | none => "bad-op"
+    | "rd" :: op :: ws =>  -- float64 under rounding: the same functions at Lean's Float (IEEE double), bit patterns
+      match ws.mapM parseF64? with
+      | some v => rectOp (fun (a : Float) => a / 2) f64Str op v
+      | none => "bad-op"
     | "rf" :: op :: ws =>
       match ws.mapM parseRat? with
       | some v => rectOp halfRat ratStr op v
@@ -171,6 +186,11 @@ def step (_ : Unit) (line : String) : Unit × String :=
     | "ai" :: op :: ws =>
       match ws.mapM String.toInt? with
       | some v => arithOp divInt (fun _ _ => "panic") halfInt id id (fun (i : Int) => toString i) op v
+      | none => "bad-op"
+    | "aw" :: op :: ws =>  -- Go int as it is: the same arithmetic at Int64 with wrap-around
+      match ws.mapM String.toInt? with
+      | some v => arithOp (fun (a b : Int64) => a / b) (fun _ _ => "panic") (fun (a : Int64) => a / 2) id id
+          (fun (i : Int64) => toString i.toInt) op (v.map Int64.ofInt)
       | none => "bad-op"
     | "af" :: op :: ws =>
       match ws.mapM parseRat? with
